@@ -35,3 +35,9 @@ def cases(rng, tier):
             yield Case(block(gen.spell(pat, rng)), {"kind": "exhaustive-respelled"}, nontrivial=False)
     for kind, s in gen.rand_seqs(rng, 200 if tier == "quick" else 2500, 400):
         yield Case(block(s), {"kind": kind}, nontrivial=len(s) >= 5 and any(c in "KRDE" for c in s))
+    # raw constructor arguments with white space (blocks of ten, line breaks, tabs): same answers as the normalised word
+    for kind, s in gen.rand_seqs(rng, 30 if tier == "quick" else 300, 80):
+        yield Case(gen.ws_lines(block(s), rng), {"kind": "whitespace-input"})
+    # long sequences with > 127 / > 255 charged or neutral residues, net charge beyond +-127, length > 256
+    for s in gen.large_regime():
+        yield Case(block(s), {"kind": "large-regime"})
